@@ -18,9 +18,9 @@ Qed.
 Lemma var_eqb_refl x : var_eqb x x = true.
 Proof. destruct x as [[] n]; unfold var_eqb; cbn; apply Nat.eqb_refl. Qed.
 
-Definition ixd (ti : tinfo) : bool := match ti_ix ti with Some _ => true | None => false end.
-Definition isk (ti : tinfo) : bool := match ti_p ti with PK => true | PV => false end.
-Definition ixd_at (m : lmode) (ti : tinfo) : bool := match m with MSame => ixd ti | _ => true end.
+(* TypeInfo.index_into: the element access path extends the parent access path *)
+Lemma tiv_elem ti ix : tiv (ti_elem ti ix) = EIdx (tiv ti) ix.
+Proof. unfold tiv, ti_elem. cbn. now rewrite fold_left_app. Qed.
 
 (* extensional equality of loader lists *)
 Definition lds_eqv (a b : list (pstr * loader)) : Prop :=
@@ -175,95 +175,83 @@ Section ExprSound.
 
   Lemma expr_sound_both :
     (forall t ti c, cmp G t ti = Some c ->
-       f18_free t (ixd ti) = true -> keyseq_free t (isk ti) = true ->
        forall en, ev en c = ld t (ti_opt ti) (ev en (tiv ti))) /\
     (forall ts m k ti es, cmp_list G m ts k ti = Some es ->
-       f18_free_l ts (ixd_at m ti) = true -> keyseq_free_l ts (isk ti) = true ->
        forall en, list_sound m ts k ti es en).
   Proof.
     apply ty_tys_ind.
     - (* leaf *)
-      intros l ti c H _ _ en.
+      intros l ti c H en.
       destruct l; cbn in H; inversion H; subst; clear H; cbn [eval load_r]; try reflexivity.
-    - (* seq *)
-      intros k t IH ti c H Hf Hk en. cbn in H.
+    - (* seq: the comprehension binds v{i+1}, the element expression reads v{i+1} *)
+      intros k t IH ti c H en. cbn in H.
       destruct (cmp G t (ti_next ti)) as [b|] eqn:Eb; [|discriminate]. inversion H; subst; clear H.
-      cbn in Hf, Hk. apply andb_true_iff in Hk as [Hk1 Hk2]. apply negb_true_iff in Hk1.
       cbn [eval load_r]. destruct (ev en (tiv ti)) as [s|x]; auto.
       destruct (py_iter s) as [l|x]; auto.
       erewrite mapM_ext; [reflexivity|]. intros x _. cbn beta.
-      rewrite (IH (ti_next ti) b Eb Hf); [|exact Hk2].
-      unfold tiv, ti_next; cbn. unfold isk in Hk1. destruct (ti_p ti); [|discriminate].
-      cbn. now rewrite Nat.eqb_refl.
-    - (* tuple *)
-      intros ts IH ti c H Hf Hk en. rewrite cmp_tuple in H.
+      rewrite (IH (ti_next ti) b Eb).
+      unfold tiv, ti_next; cbn. now rewrite Nat.eqb_refl.
+    - (* tuple: element k is read at <access path of the tuple>[k] *)
+      intros ts IH ti c H en. rewrite cmp_tuple in H.
       destruct (cmp_list G MElem ts 0 ti) as [es|] eqn:Ee; [|discriminate]. inversion H; subst; clear H.
-      cbn in Hf, Hk. apply andb_true_iff in Hf as [Hf1 Hf2]. apply negb_true_iff in Hf1.
-      specialize (IH MElem 0 ti es Ee Hf2 Hk en).
+      specialize (IH MElem 0 ti es Ee en).
       rewrite eval_tuple, load_r_tuple.
-      assert (Hix : ti_ix ti = None) by (unfold ixd in Hf1; destruct (ti_ix ti); congruence).
       assert (E : mapM (ev en) (map snd es) = load_elems Or rec ts 0 (ev en (tiv ti))).
-      { clear Ee Hf2 Hk. revert es IH. generalize 0. induction ts as [|lbl t r IHr]; intros k es HS.
+      { clear Ee. revert es IH. generalize 0. induction ts as [|lbl t r IHr]; intros k es HS.
         - destruct es; [reflexivity|contradiction].
         - destruct es as [|[l' e] er]; [contradiction|]. destruct HS as (_ & He & Hr).
           cbn [map snd mapM bind]. rewrite load_elems_cons. rewrite He. clear He.
-          rewrite (IHr _ _ Hr). cbn [ti_at ti_elem ti_opt]. unfold tiv, bind.
-          cbn [ti_ix ti_elem ti_p ti_i]. rewrite Hix. cbn [eval]. reflexivity. }
+          rewrite (IHr _ _ Hr). cbn [ti_at]. rewrite tiv_elem. cbn [eval ti_opt ti_elem]. reflexivity. }
       now rewrite E.
     - (* dict *)
-      intros dd kt IHk vt IHv ti c H Hf Hk en. cbn in H.
+      intros dd kt IHk vt IHv ti c H en. cbn in H.
       destruct (cmp G kt (ti_key ti)) as [kb|] eqn:E1; [|discriminate].
       destruct (cmp G vt (ti_val ti)) as [vb|] eqn:E2; [|discriminate]. inversion H; subst; clear H.
-      cbn in Hf, Hk. apply andb_true_iff in Hf as [Hf1 Hf2]. apply andb_true_iff in Hk as [Hk1 Hk2].
       cbn [eval load_r]. destruct (ev en (tiv ti)) as [s|x]; auto.
       destruct (py_items s) as [kvs|x]; auto.
       erewrite mapM_ext; [reflexivity|]. intros [k0 v0] _. cbn beta. cbn [fst snd].
-      rewrite (IHk (ti_key ti) kb E1 Hf1 Hk1), (IHv (ti_val ti) vb E2 Hf2 Hk2).
+      rewrite (IHk (ti_key ti) kb E1), (IHv (ti_val ti) vb E2).
       unfold tiv, ti_key, ti_val; cbn. now rewrite Nat.eqb_refl.
     - (* opt *)
-      intros t IH ti c H Hf Hk en. cbn in H.
+      intros t IH ti c H en. cbn in H.
       destruct (cmp G t (ti_inopt ti)) as [b|] eqn:Eb; [|discriminate]. inversion H; subst; clear H.
-      cbn in Hf, Hk. cbn [eval load_r]. destruct (ev en (tiv ti)) as [v|x] eqn:Ev; auto.
+      cbn [eval load_r]. destruct (ev en (tiv ti)) as [v|x] eqn:Ev; auto.
       destruct (is_none v); auto.
-      rewrite (IH (ti_inopt ti) b Eb Hf Hk).
+      rewrite (IH (ti_inopt ti) b Eb).
       change (tiv (ti_inopt ti)) with (tiv ti). now rewrite Ev.
     - (* union *)
-      intros ts _ ti c H _ _ en. cbn in H. unfold cmp_helper in H.
+      intros ts _ ti c H en. cbn in H. unfold cmp_helper in H.
       destruct (guard_lookup G (TUnion ts)) as [[k' f]|] eqn:EL; [|discriminate].
       destruct (ty_eqb (TUnion ts) k') eqn:Et; [|discriminate]. apply ty_eqb_eq in Et. subst k'.
       inversion H; subst; clear H. cbn [eval load_r]. destruct (ev en (tiv ti)); auto.
     - (* literal *)
-      intros vs ti c H _ _ en. cbn in H. unfold cmp_helper in H.
+      intros vs ti c H en. cbn in H. unfold cmp_helper in H.
       destruct (guard_lookup G (TLit vs)) as [[k' f]|] eqn:EL; [|discriminate].
       destruct (ty_eqb (TLit vs) k') eqn:Et; [|discriminate]. apply ty_eqb_eq in Et. subst k'.
       inversion H; subst; clear H. cbn [eval load_r]. destruct (ev en (tiv ti)); auto.
     - (* named *)
-      intros n fs _ ti c H _ _ en. cbn in H. unfold cmp_helper in H.
+      intros n fs _ ti c H en. cbn in H. unfold cmp_helper in H.
       destruct (guard_lookup G (TNamed n fs)) as [[k' f]|] eqn:EL; [|discriminate].
       destruct (ty_eqb (TNamed n fs) k') eqn:Et; [|discriminate]. apply ty_eqb_eq in Et. subst k'.
       inversion H; subst; clear H. cbn [eval load_r]. destruct (ev en (tiv ti)); auto.
     - (* typed *)
-      intros n r _ o _ ti c H _ _ en. cbn in H. unfold cmp_helper in H.
+      intros n r _ o _ ti c H en. cbn in H. unfold cmp_helper in H.
       destruct (guard_lookup G (TTyped n r o)) as [[k' f]|] eqn:EL; [|discriminate].
       destruct (ty_eqb (TTyped n r o) k') eqn:Et; [|discriminate]. apply ty_eqb_eq in Et. subst k'.
       inversion H; subst; clear H. cbn [eval load_r]. destruct (ev en (tiv ti)); auto.
     - (* data *)
-      intros c0 ti c H _ _ en. cbn in H. unfold cmp_helper in H.
+      intros c0 ti c H en. cbn in H. unfold cmp_helper in H.
       destruct (guard_lookup G (TData c0)) as [[k' f]|] eqn:EL; [|discriminate].
       destruct (ty_eqb (TData c0) k') eqn:Et; [|discriminate]. apply ty_eqb_eq in Et. subst k'.
       inversion H; subst; clear H. cbn [eval load_r]. destruct (ev en (tiv ti)); auto.
     - (* nil *)
-      intros m k ti es H _ _ en. inversion H; subst. exact I.
+      intros m k ti es H en. inversion H; subst. exact I.
     - (* cons *)
-      intros lbl t IHt r IHr m k ti es H Hf Hk en. rewrite cmp_list_cons in H.
+      intros lbl t IHt r IHr m k ti es H en. rewrite cmp_list_cons in H.
       destruct (cmp G t (ti_at m ti k lbl)) as [e|] eqn:E1; [|discriminate].
       destruct (cmp_list G m r (Datatypes.S k) ti) as [er|] eqn:E2; [|discriminate].
-      inversion H; subst; clear H. cbn in Hf, Hk.
-      apply andb_true_iff in Hf as [Hf1 Hf2]. apply andb_true_iff in Hk as [Hk1 Hk2].
-      cbn [list_sound]. split; auto. split; [|now apply IHr].
-      apply (IHt _ _ E1).
-      + destruct m; cbn in *; auto.
-      + destruct m; cbn in *; auto.
+      inversion H; subst; clear H.
+      cbn [list_sound]. split; auto.
   Qed.
 
   (* a compiled component list run on the helper parameter equals the spec loaders *)
@@ -309,54 +297,51 @@ Section ExprSound.
 
   Lemma fields_sound fs : forall i es,
     cmp_fields G fs i = Some es ->
-    forallb (fun f => f18_free (f_ty f) false && keyseq_free (f_ty f) false) fs = true ->
     Forall2 (fun f g : loader => forall v, f v = g v)
             (map (run1 Or call) es) (map (fun f => load_ty Or rec (f_ty f)) fs).
   Proof.
-    induction fs as [|f r IH]; intros i es H Hr; cbn in H.
+    induction fs as [|f r IH]; intros i es H; cbn in H.
     - inversion H; subst. constructor.
     - destruct (cmp G (f_ty f) (ti_field i)) as [e|] eqn:E1; [|discriminate].
       destruct (cmp_fields G r (Datatypes.S i)) as [er|] eqn:E2; [|discriminate].
-      inversion H; subst; clear H. cbn in Hr. apply andb_true_iff in Hr as [Hr1 Hr2].
-      apply andb_true_iff in Hr1 as [Ha Hb]. cbn [map]. constructor; [|eapply IH; eauto].
+      inversion H; subst; clear H. cbn [map]. constructor; [|eapply IH; eauto].
       intro v. unfold run1, load_ty.
-      now rewrite (proj1 expr_sound_both _ _ _ E1 Ha Hb).
+      now rewrite (proj1 expr_sound_both _ _ _ E1).
   Qed.
 
   (* the body of a helper, run with budget-n calls, computes load_helper *)
   Lemma body_sound fi k b :
-    body_of G ct fi k = Some b -> key_region ct k = true ->
+    body_of G ct fi k = Some b ->
     forall v, eval_body Or call ct b v = load_helper Or ct rec k v.
   Proof.
-    intros Hb Hr v. destruct k; cbn in Hb; try discriminate.
+    intros Hb v. destruct k; cbn in Hb; try discriminate.
     - (* union *)
       destruct (cmp_list G MSame ts 0 (ti_fn fi (has_none ts))) as [es|] eqn:E; [|discriminate].
-      inversion Hb; subst; clear Hb. cbn in Hr. apply andb_true_iff in Hr as [Hr1 Hr2].
+      inversion Hb; subst; clear Hb.
       cbn [eval_body load_helper]. apply union_skel_ext, mk_alts_salts.
       apply (list_sound_lds MSame _ _ _ _ fi). intro en.
-      apply (proj2 expr_sound_both _ _ _ _ _ E); auto.
+      apply (proj2 expr_sound_both _ _ _ _ _ E).
     - (* literal *)
       inversion Hb; subst. reflexivity.
     - (* named *)
       destruct (cmp_list G MElem fs 0 (ti_fn fi false)) as [es|] eqn:E; [|discriminate].
-      inversion Hb; subst; clear Hb. cbn in Hr. apply andb_true_iff in Hr as [Hr1 Hr2].
+      inversion Hb; subst; clear Hb.
       cbn [eval_body load_helper]. apply named_skel_ext.
       apply (list_sound_lds MElem false _ _ _ fi). intro en.
-      apply (proj2 expr_sound_both _ _ _ _ _ E); auto.
+      apply (proj2 expr_sound_both _ _ _ _ _ E).
     - (* typed *)
       destruct (cmp_list G MKey req 0 (ti_fn fi false)) as [rs|] eqn:E1; [|discriminate].
       destruct (cmp_list G MSame opt 0 (ti_fn2 fi)) as [os|] eqn:E2; [|discriminate].
-      inversion Hb; subst; clear Hb. cbn in Hr. apply andb_true_iff in Hr as [Hr1 Hr2].
-      apply andb_true_iff in Hr1 as [Ha Hb]. apply andb_true_iff in Hr2 as [Hc Hd].
+      inversion Hb; subst; clear Hb.
       cbn [eval_body load_helper]. apply typed_skel_ext.
       + apply (list_sound_lds MKey false _ _ _ fi). intro en.
-        apply (proj2 expr_sound_both _ _ _ _ _ E1); auto.
+        apply (proj2 expr_sound_both _ _ _ _ _ E1).
       + apply (list_sound_lds2 _ _ _ fi). intro en.
-        apply (proj2 expr_sound_both _ _ _ _ _ E2); auto.
+        apply (proj2 expr_sound_both _ _ _ _ _ E2).
     - (* data *)
       destruct (nth_error ct c) as [cd|] eqn:En; [|discriminate].
       destruct (cmp_fields G (c_fields cd) 0) as [es|] eqn:E; [|discriminate].
-      inversion Hb; subst; clear Hb. cbn in Hr. rewrite En in Hr.
+      inversion Hb; subst; clear Hb.
       cbn [eval_body load_helper]. rewrite En. apply class_skel_ext.
       eapply fields_sound; eauto.
   Qed.
@@ -370,7 +355,6 @@ Section ProgSound.
   Variable fns : list (pstr * (ty * fbody)).
   Hypothesis Hok : fns_ok G ct fns.
   Hypothesis Hcoh : forall k f, In (k, f) G -> exists b, fn_lookup fns f = Some (k, b).
-  Hypothesis Hreg : forall k f, In (k, f) G -> key_region ct k = true.
 
   Lemma calls_sound n :
     forall k f, guard_lookup G k = Some (k, f) -> forall v, run_fn Or ct fns n f v = load_n Or ct n k v.
@@ -379,55 +363,50 @@ Section ProgSound.
     pose proof (guard_lookup_in _ _ _ _ HL) as Hin.
     destruct (Hcoh _ _ Hin) as [b Hb]. destruct (Hok _ _ _ Hb) as [fi Hbo].
     cbn [run_fn load_n]. rewrite Hb.
-    apply (body_sound Or ct G (run_fn Or ct fns n) (load_n Or ct n) IH fi k b Hbo (Hreg _ _ Hin)).
+    apply (body_sound Or ct G (run_fn Or ct fns n) (load_n Or ct n) IH fi k b Hbo).
   Qed.
 End ProgSound.
 
 Lemma coherent_spec g :
   coherent g = true ->
-  g_alias g = false /\
   forall k f, In (k, f) (g_guard g) -> exists b, fn_lookup (g_fns g) f = Some (k, b).
 Proof.
-  unfold coherent. intro H. apply andb_true_iff in H as [H1 H2]. apply negb_true_iff in H1.
-  split; auto. intros k f Hin. rewrite forallb_forall in H2. specialize (H2 _ Hin). cbn in H2.
+  unfold coherent. intros H2 k f Hin. rewrite forallb_forall in H2. specialize (H2 _ Hin). cbn in H2.
   destruct (fn_lookup (g_fns g) f) as [[k' b]|]; [|discriminate].
   apply ty_eqb_eq in H2. subst k'. eauto.
 Qed.
 
 (* C02 (b): generator soundness for the main class *)
 Theorem gen_main_sound Or ct gn c f g :
-  gen_main ct gn c = Ok (f, g) -> coherent g = true -> region_ok ct g = true ->
+  gen_main ct gn c = Ok (f, g) -> coherent g = true ->
   forall n o, run_fn Or ct (g_fns g) n f o = load_cls Or ct n c o.
 Proof.
-  intros Hg Hc Hr n o. destruct (coherent_spec _ Hc) as [Ha Hcoh].
-  destruct (gen_main_inv _ _ _ _ _ Hg Ha) as [Hok HL].
+  intros Hg Hc n o. pose proof (coherent_spec _ Hc) as Hcoh.
+  destruct (gen_main_inv _ _ _ _ _ Hg) as [Hok HL].
   unfold load_cls. apply (calls_sound Or ct (g_guard g) (g_fns g) Hok Hcoh); auto.
-  intros k f0 Hin. unfold region_ok in Hr. rewrite forallb_forall in Hr. apply (Hr _ Hin).
 Qed.
 
 Corollary run_main_sound Or ct gn c f g :
-  gen_main ct gn c = Ok (f, g) -> coherent g = true -> region_ok ct g = true ->
+  gen_main ct gn c = Ok (f, g) -> coherent g = true ->
   forall n o, run_main Or ct gn n c o = load_cls Or ct n c o.
-Proof. intros Hg Hc Hr n o. unfold run_main. rewrite Hg. eapply gen_main_sound; eauto. Qed.
+Proof. intros Hg Hc n o. unfold run_main. rewrite Hg. eapply gen_main_sound; eauto. Qed.
 
 (* the position-level statement: an expression generated at ANY TypeInfo ti (any variable
-   index i, with or without a parent index, prefix v or k), in any environment, computes
+   index i, any chain of parent indexes, prefix v or k), in any environment, computes
    the specification applied to the value read at that position *)
 Theorem gen_expr_sound Or ct gn t ti cn g c g' :
   gen_expr ct gn t ti cn g = Ok (c, g') ->
-  forall Gf, (* any final state extending g' ... *)
-    ext (g_guard g') (g_guard Gf) -> coherent Gf = true -> region_ok ct Gf = true ->
+  forall Gf, (* any final state extending g' *)
+    ext (g_guard g') (g_guard Gf) -> coherent Gf = true ->
     fns_ok (g_guard Gf) ct (g_fns Gf) ->
-    f18_free t (ixd ti) = true -> keyseq_free t (isk ti) = true -> g_alias g' = false ->
     forall n en,
       eval Or (run_fn Or ct (g_fns Gf) n) en c =
       load_v1_r Or ct n t (ti_opt ti) (eval Or (run_fn Or ct (g_fns Gf) n) en (tiv ti)).
 Proof.
-  intros Hg Gf Hext Hc Hr Hok Hf Hk Ha n en.
-  destruct (coherent_spec _ Hc) as [_ Hcoh].
-  destruct (proj1 (gen_good_both ct _ (gen_cls_n_good ct gn)) t ti cn g c g' Hg) as (_ & _ & H3).
-  destruct (H3 _ Hext Ha) as [Hcmp _].
+  intros Hg Gf Hext Hc Hok n en.
+  pose proof (coherent_spec _ Hc) as Hcoh.
+  destruct (proj1 (gen_good_both ct _ (gen_cls_n_good ct gn)) t ti cn g c g' Hg) as (_ & H3).
+  destruct (H3 _ Hext) as [Hcmp _].
   apply (proj1 (expr_sound_both Or (g_guard Gf) _ _
-           (calls_sound Or ct (g_guard Gf) (g_fns Gf) Hok Hcoh
-              (fun k f Hin => proj1 (forallb_forall _ _) Hr _ Hin) n)) t ti c Hcmp Hf Hk).
+           (calls_sound Or ct (g_guard Gf) (g_fns Gf) Hok Hcoh n)) t ti c Hcmp).
 Qed.
